@@ -714,6 +714,12 @@ def fixed_histories(rng):
         out.append(("flcdm2", {"backend": bk, "ops": [mk_op(False, 8, 1, 2, m, sg, 81, crash=5), mk_op(False, 10, 1, 2, m, sg, 82)]}))
         out.append(("flcdm2", {"backend": bk, "ops": [mk_op(False, 12, 0, 2, m, sg, 83, crash=12), mk_op(False, 8, 1, 1, m, sg, 84),
                                                      mk_op(True, 8, 0, 2, m, sg, 85)]}))
+    # stopped AFTER stored steps, then a FRESH run of the SAME shape on the same sampler object and store: the store is emptied
+    # again (a sampler that remembers having emptied this store must forget it when the run does not end normally)
+    for bk in ("mem", "hdf"):
+        out.append(("flcdm2", {"backend": bk, "ops": [mk_op(False, 8, 2, 4, m, sg, 101, crash=20), mk_op(False, 8, 1, 2, m, sg, 102)]}))
+        out.append(("flcdm2", {"backend": bk, "ops": [mk_op(False, 8, 1, 4, m, sg, 103, crash=30), mk_op(False, 8, 0, 3, m, sg, 104),
+                                                     mk_op(True, 8, 0, 1, m, sg, 105)]}))
     # a start ball much wider than the box
     out.append(("flcdm2", {"backend": "mem", "ops": [mk_op(False, 16, 1, 2, m, [300.0, sg[1]], 91)]}))
     # no backend keyword at all
